@@ -88,3 +88,13 @@ claim('C19', 'exploration',
       'Metadata() and MetadataWithSLO(h) for h in {0,1,5,24,168,10^6,-1,-1000} are consumed as struct and through XML (marshal, conforming parse, unmarshal) under every key configuration, option combination, hostile URL/issuer strings and SP clock (skew, location, sub-second): entity ID, endpoints, bindings, flags and validUntil = clock UTC + 7 days or + h hours are checked, then the published signing certificate must verify the next signed message and an assertion encrypted to the published encryption certificate under every listed method must be accepted.',
       'an encryption key is always configured (documented as required)',
       'DESIGN.md 4 C19')
+claim('C17', 'exploration',
+      'deterministic simulation of goroutine schedules: go/ast-instrumented scratch copy, seeded cooperative scheduler over real goroutines, race detector kept live, solo-equivalence oracle',
+      'At check time the current tree is copied and instrumented (a yield before every statement, lock acquisitions spun through the scheduler); 2-6 tasks of 1-4 public operations run on one shared fresh SP (so first signers race on the lazy signing context), sometimes with a second instance, under seeded strategies (sequential baseline, random walk, PCT-style priorities, fine round-robin, long runs). The baton hand-off runs with race-detector synchronisation events disabled, so unsynchronised accesses between tasks are still reported. Oracles: race log did not grow; every result equals the solo re-execution of its task on an identical fresh SP (per-task entropy, frozen clock); configuration snapshot and arguments unchanged; results scribbled over after return never affect later results; no deadlock. Race-freedom is shown for the executed schedules only.',
+      'trusted: Go race detector; blocking primitives other than Mutex/RWMutex inside the library are not modelled (watchdog => exit 2)',
+      'DESIGN.md 2.4, 4 C17')
+claim('C18', 'fault_enumeration',
+      'deterministic simulation with the entropy seam: accounting crypto/rand.Reader, seeded schedules, enumeration of the masked entropy bytes, short-read faults',
+      'crypto/rand.Reader is replaced by an accounting per-task reader, so the simulator knows every byte the library was served: every ID built under seeded schedules (2-6 tasks, shared and separate instances), in sequential histories of 20-200 constructions and under 1-3-byte short reads must be a legal canonical v4 xs:ID equal to the rendering of a contiguous, not yet used 16-byte window of the served bytes with only the version / variant bits forced (conservation of entropy: no reuse, nothing from elsewhere); all 65,536 values of the two masked bytes are enumerated (quick: a quarter); with the OS reader 10^5 / 10^6 IDs across kinds, instances and goroutines are pairwise distinct.',
+      'unpredictability is provenance only (every free bit comes unchanged from crypto/rand.Reader); OS generator quality assumed; entropy errors not injectable since Go 1.24',
+      'DESIGN.md 4 C18')
